@@ -375,6 +375,21 @@ def merge_obligations(ctx, rep, umn, rule_c="R08c", only_merge=False):
                         problems.add("a file with an ordinary .cap file is not listed exactly once")
                     if len(mg) != 1:
                         problems.add("an ordinary .cap file is not merged into the file's entry")
+                    elif mg:
+                        # what the .cap file set stays: nothing rewrites the entry between the merge and the listing
+                        eparam = pa.params[3] if len(pa.params) > 3 else "fileentry"
+                        after = False
+                        for e in p.events:
+                            if e is mg[0]:
+                                after = True
+                                continue
+                            if after and e.kind == "call" and isinstance(e.node.func, ast.Attribute) and e.node.func.attr.startswith("set") \
+                                    and e.node.func.attr != "setdefault":
+                                recv = e.node.func.value
+                                rtxt = norm(_xa(recv, None, e.defs) if e.defs else recv)
+                                if rtxt == eparam or norm(recv) == eparam:
+                                    problems.add(f"`{norm(e.node)[:60]}` rewrites the entry after the .cap file was merged into it: "
+                                                 "the .cap override does not reach the menu as written")
         rep.add("R08e", f"{pa.qualname}: .cap Type=X/- hides, anything else overrides and lists", not problems, ctx.where(pa), "; ".join(sorted(problems)),
                 key="R08e|cap")
 
